@@ -129,6 +129,8 @@ def c02():
     for r in c["runs"]:
         if r["crash"] or r["hang"] or r["mode"] == "np" or r["late"] or r.get("nonterminating") or r.get("premature"):
             continue
+        if r.get("reruns") is not None and r.get("confirm", 0) == 0:
+            continue          # (printed less than the reference once, never again in three repetitions: the run was cut short, its survivors are not stuck)
         judged += 1
         bad = _blocked_bad(r)
         if bad:
@@ -335,6 +337,8 @@ def c14():
                         continue
                     if mode == "np" and not p["cfree"]:
                         continue
+                    if r.get("reruns") is not None and r.get("confirm", 0) == 0 and not r["crash"]:
+                        continue      # (deviated once from the reference, never again in three repetitions of the same configuration: a run cut short)
                     key = "CRASH" if r["crash"] else " ".join(sorted(r["prints"]))
                     bags[key].append((p, r))
                     if not r["crash"] and mode != "np":
